@@ -8,6 +8,7 @@
 -/
 import CRModel.CRXmlW
 import CRModel.XmlNum
+import Gen.PyEnums
 
 namespace CR.XmlW
 open CR.Xsd CR.XmlNum
@@ -34,6 +35,34 @@ def intStr (i : Int) : Str := if i < 0 then '-' :: natStr (-i).toNat else natStr
 def boolStr (b : Bool) : Str := if b then "true".toList else "false".toList
 
 def el (n : String) (kids : List Xml) : Xml := .node n [] [] kids
+
+/-! ### enum members -> written text
+
+The data (`DocD`) carries enum MEMBER NAMES; what the writer emits for a member is computed here from the (name, value) tables
+regenerated from the Python enums on every run (Gen/PyEnums.lean): `.value` almost everywhere, `.name.lower()` for the line
+marking of a stop line, nothing for `LineMarking.UNKNOWN` on a bound and for `TrafficLightDirection.ALL`. -/
+
+/-- `Enum[name].value` (`""` if `name` is not a member) -/
+def enumValue (tbl : List (String × String)) (name : String) : String := (tbl.lookup name).getD ""
+
+/-- `str(LineMarking[name].name.lower())` (LineMarkingXMLNode._line_marking_enum_to_string) -/
+def lineMarkingLower (name : String) : String :=
+  (((CR.Py.Gen.lineMarking.map (·.1)).zip CR.Py.Gen.lineMarkingLowerName).lookup name).getD ""
+
+/-- the table row of `TrafficSignID<Country>[name]` -/
+def signEntry (cls name : String) : Option (String × String × String) :=
+  CR.Py.Gen.trafficSignId.find? (fun x => x.1 == cls && x.2.1 == name)
+
+/-- `str(element.traffic_sign_element_id.value)` -/
+def signValue (cls name : String) : String := match signEntry cls name with | some x => x.2.2 | none => ""
+
+/-- line marking of a bound: written unless it is `LineMarking.UNKNOWN` -/
+def boundMarking (name : String) : Option String :=
+  if name == "UNKNOWN" then none else some (enumValue CR.Py.Gen.lineMarking name)
+
+/-- direction of a traffic light: written unless it is `TrafficLightDirection.ALL` -/
+def lightDirection (name : String) : Option String :=
+  if name == "ALL" then none else some (enumValue CR.Py.Gen.trafficLightDirection name)
 def idAttr (i : Int) : List (String × String) := [("id", String.ofList (intStr i))]
 /-- `<n ref="i"/>` -/
 def refNode (n : String) (i : Int) : Xml := .node n [("ref", String.ofList (intStr i))] [] []
@@ -117,6 +146,12 @@ def Attr.name : Attr → String
   | .time _ => "time"
   | .value a _ => xmlProp a
 
+/-- Python attribute name of a used attribute -/
+def Attr.pyName : Attr → String
+  | .position _ => "position"
+  | .time _ => "time_step"
+  | .value a _ => a
+
 def attrNode (p : Nat) : Attr → Xml
   | .position q => posNode p q
   | .time t => el "time" (timeKids t)
@@ -172,7 +207,7 @@ structure StaticObs where
 
 /-- StaticObstacleXMLNode.create_node -/
 def staticNode (p : Nat) (o : StaticObs) : Xml :=
-  .node "staticObstacle" (idAttr o.id) [] [leaf "type" o.type.toList, el "shape" (shapeNodes p false o.shape),
+  .node "staticObstacle" (idAttr o.id) [] [leaf "type" (enumValue CR.Py.Gen.obstacleType o.type).toList, el "shape" (shapeNodes p false o.shape),
     stateNode p "initialState" o.init]
 
 structure DynObs where
@@ -200,7 +235,7 @@ def seriesNodes (ss : List Signal) : List Xml :=
 
 /-- DynamicObstacleXMLNode.create_node -/
 def dynNode (p : Nat) (o : DynObs) : Xml :=
-  .node "dynamicObstacle" (idAttr o.id) [] ([leaf "type" o.type.toList, el "shape" (shapeNodes p true o.shape),
+  .node "dynamicObstacle" (idAttr o.id) [] ([leaf "type" (enumValue CR.Py.Gen.obstacleType o.type).toList, el "shape" (shapeNodes p true o.shape),
     stateNode p "initialState" o.init] ++ sig0Nodes o.sig0 ++ predNodes p o.pred ++ seriesNodes o.series)
 
 structure PhantomObs where
@@ -221,13 +256,13 @@ structure EnvObs where
   deriving Repr, Inhabited
 
 def envObsNode (p : Nat) (o : EnvObs) : Xml :=
-  .node "environmentObstacle" (idAttr o.id) [] [leaf "type" o.type.toList, el "shape" (shapeNodes p false o.shape)]
+  .node "environmentObstacle" (idAttr o.id) [] [leaf "type" (enumValue CR.Py.Gen.obstacleType o.type).toList, el "shape" (shapeNodes p false o.shape)]
 
 /-! ### lanelets -/
 
 structure StopLineD where
   pts : Option (Pt × Pt)
-  marking : Option String          -- `line_marking.name.lower()`; an enum member is truthy, so always present
+  marking : Option String          -- LineMarking member name (an enum member is truthy, so always present)
   signs : List Int
   lights : List Int
   deriving Repr, Inhabited
@@ -243,28 +278,28 @@ def stopPtNodes (p : Nat) : Option (Pt × Pt) → List Xml
 /-- LaneletStopLineXMLNode.create_node -/
 def stopLineNode (p : Nat) (s : StopLineD) : Xml :=
   el "stopLine" (stopPtNodes p s.pts ++
-    optLeaf "lineMarking" s.marking ++ s.signs.map (refNode "trafficSignRef") ++ s.lights.map (refNode "trafficLightRef"))
+    optLeaf "lineMarking" (s.marking.map lineMarkingLower) ++ s.signs.map (refNode "trafficSignRef") ++ s.lights.map (refNode "trafficLightRef"))
 
 structure LaneletD where
   id : Int
   left : List Pt
   right : List Pt
-  lmLeft : Option String           -- written value, none for LineMarking.UNKNOWN
-  lmRight : Option String
+  lmLeft : String                  -- LineMarking member name
+  lmRight : String
   pred : List Int
   succ : List Int
   adjL : Option (Int × Bool)       -- id, same direction
   adjR : Option (Int × Bool)
   stop : Option StopLineD
-  types : List String              -- values in iteration order ([] is written as one `unknown`)
+  types : List String              -- LaneletType member names in iteration order ([] is written as LaneletType.UNKNOWN)
   oneWay : List String
   bidir : List String
   signs : List Int
   lights : List Int
   deriving Repr, Inhabited
 
-def boundNode (p : Nat) (tag : String) (pts : List Pt) (lm : Option String) : Xml :=
-  el tag (pts.map (ptNode p "point") ++ optLeaf "lineMarking" lm)
+def boundNode (p : Nat) (tag : String) (pts : List Pt) (lm : String) : Xml :=
+  el tag (pts.map (ptNode p "point") ++ optLeaf "lineMarking" (boundMarking lm))
 
 def adjNode (tag : String) : Option (Int × Bool) → List Xml
   | some (i, same) => [.node tag [("ref", String.ofList (intStr i)), ("drivingDir", if same then "same" else "opposite")] [] []]
@@ -274,8 +309,9 @@ def optStopNodes (p : Nat) : Option StopLineD → List Xml
   | some s => [stopLineNode p s]
   | none => []
 
-/-- the written lanelet types: an empty set is written as one `unknown` -/
-def typesWritten (types : List String) : List String := if types.isEmpty then ["unknown"] else types
+/-- the written lanelet types: an empty set is written as `LaneletType.UNKNOWN` -/
+def typesWritten (types : List String) : List String :=
+  (if types.isEmpty then ["UNKNOWN"] else types).map (enumValue CR.Py.Gen.laneletType)
 
 /-- LaneletXMLNode.create_node -/
 def laneletNode (p : Nat) (l : LaneletD) : Xml :=
@@ -283,14 +319,15 @@ def laneletNode (p : Nat) (l : LaneletD) : Xml :=
     l.pred.map (refNode "predecessor") ++ l.succ.map (refNode "successor") ++
     adjNode "adjacentLeft" l.adjL ++ adjNode "adjacentRight" l.adjR ++
     optStopNodes p l.stop ++ (typesWritten l.types).map (fun v => leaf "laneletType" v.toList) ++
-    l.oneWay.map (fun v => leaf "userOneWay" v.toList) ++ l.bidir.map (fun v => leaf "userBidirectional" v.toList) ++
+    (l.oneWay.map (enumValue CR.Py.Gen.roadUser)).map (fun v => leaf "userOneWay" v.toList) ++
+    (l.bidir.map (enumValue CR.Py.Gen.roadUser)).map (fun v => leaf "userBidirectional" v.toList) ++
     l.signs.map (refNode "trafficSignRef") ++ l.lights.map (refNode "trafficLightRef"))
 
 /-! ### traffic signs, traffic lights, intersections -/
 
 structure SignD where
   id : Int
-  elements : List (String × List String)     -- trafficSignID value, additional values
+  elements : List (String × String × List String)     -- TrafficSignID<Country> class, member name, additional values
   pos : Option Pt
   virtual : Option Bool
   deriving Repr, Inhabited
@@ -300,8 +337,8 @@ def optPosNodes (p : Nat) : Option Pt → List Xml
   | some q => [el "position" [ptNode p "point" q]]
   | none => []
 
-def signElementNode (e : String × List String) : Xml :=
-  el "trafficSignElement" (leaf "trafficSignID" e.1.toList :: e.2.map (fun v => leaf "additionalValue" v.toList))
+def signElementNode (e : String × String × List String) : Xml :=
+  el "trafficSignElement" (leaf "trafficSignID" (signValue e.1 e.2.1).toList :: e.2.2.map (fun v => leaf "additionalValue" v.toList))
 
 /-- TrafficSignXMLNode.create_node -/
 def signNode (p : Nat) (s : SignD) : Xml :=
@@ -309,9 +346,9 @@ def signNode (p : Nat) (s : SignD) : Xml :=
 
 structure LightD where
   id : Int
-  cycle : Option (List (Int × String) × Option Int)   -- (duration, colour)*, time offset
+  cycle : Option (List (Int × String) × Option Int)   -- (duration, TrafficLightState member name)*, time offset
   pos : Option Pt
-  direction : Option String                           -- none for TrafficLightDirection.ALL
+  direction : String                                  -- TrafficLightDirection member name
   active : Option Bool
   deriving Repr, Inhabited
 
@@ -319,7 +356,8 @@ def offsetNodes : Option Int → List Xml
   | some o => if 0 < o then [leaf "timeOffset" (intStr o)] else []
   | none => []
 
-def cycleElementNode (e : Int × String) : Xml := el "cycleElement" [leaf "duration" (intStr e.1), leaf "color" e.2.toList]
+def cycleElementNode (e : Int × String) : Xml :=
+  el "cycleElement" [leaf "duration" (intStr e.1), leaf "color" (enumValue CR.Py.Gen.trafficLightState e.2).toList]
 
 /-- TrafficLightCycleXMLNode.create_node -/
 def cycleNode (es : List (Int × String)) (off : Option Int) : Xml := el "cycle" (es.map cycleElementNode ++ offsetNodes off)
@@ -331,7 +369,7 @@ def optCycleNodes : Option (List (Int × String) × Option Int) → List Xml
 /-- TrafficLightXMLNode.create_node -/
 def lightNode (p : Nat) (l : LightD) : Xml :=
   .node "trafficLight" (idAttr l.id) [] (optCycleNodes l.cycle ++ optPosNodes p l.pos ++
-    optLeaf "direction" l.direction ++ optB "active" l.active)
+    optLeaf "direction" (lightDirection l.direction) ++ optB "active" l.active)
 
 structure IncomingD where
   id : Int
@@ -411,8 +449,9 @@ def geoNode (g : GeoD) : Xml :=
       leaf "scaling" g.scale.dec]]
 
 def envNode (e : EnvD) : Xml :=
-  el "environment" [leaf "time" (timeText e.hours e.minutes), leaf "timeOfDay" e.timeOfDay.toList,
-    leaf "weather" e.weather.toList, leaf "underground" e.underground.toList]
+  el "environment" [leaf "time" (timeText e.hours e.minutes), leaf "timeOfDay" (enumValue CR.Py.Gen.timeOfDay e.timeOfDay).toList,
+    leaf "weather" (enumValue CR.Py.Gen.weather e.weather).toList,
+    leaf "underground" (enumValue CR.Py.Gen.underground e.underground).toList]
 
 def optGeoNodes : Option GeoD → List Xml | some g => [geoNode g] | none => []
 def optEnvNodes : Option EnvD → List Xml | some e => [envNode e] | none => []
@@ -422,12 +461,11 @@ def locationNode (l : LocationD) : Xml :=
     optGeoNodes l.geo ++ optEnvNodes l.env)
 
 /-- TagXMLNode.create_node -/
-def tagsNode (tags : List String) : Xml := el "scenarioTags" (tags.map fun t => leaf t [])
+def tagsNode (tags : List String) : Xml := el "scenarioTags" ((tags.map (enumValue CR.Py.Gen.tag)).map fun t => leaf t [])
 
 structure DocD where
   precision : Nat
   dt : Num
-  version : String
   author : String
   affiliation : String
   source : String
@@ -447,7 +485,7 @@ structure DocD where
   deriving Repr, Inhabited
 
 def headerAttrs (d : DocD) : List (String × String) :=
-  [("timeStepSize", String.ofList d.dt.dec), ("commonRoadVersion", d.version), ("author", d.author),
+  [("timeStepSize", String.ofList d.dt.dec), ("commonRoadVersion", CR.Py.Gen.scenarioVersion), ("author", d.author),
    ("affiliation", d.affiliation), ("source", d.source), ("benchmarkID", d.benchmark), ("date", d.date)]
 
 def docFamilies (d : DocD) : List (List Xml) :=
